@@ -636,7 +636,7 @@ package chain
 //@   requires [tip-parent] s.Index.Height + 1 == sheight
 //@   ensures best == remove(old(best), s.Index.Height + 1) && sheight == s.Index.Height
 //
-//@ func (*Manager).revertTip props C01,C03
+//@ func (*Manager).revertTip props C01,C03,C19
 //@   requires managerInv(m) && chainCoherent() && recordInv() && sheight > 0
 //@   ensures [step] result == nil ==> sheight == old(sheight) - 1 && best == remove(old(best), old(sheight)) && m.tipState.Index.Height == sheight
 //@        && m.tipState == old(states[body[m.tipState.Index.ID].ParentID])
